@@ -368,62 +368,56 @@ func newReal(cfg Cfg, probe bool) *real {
 		rng[i] = byte(x)
 	}
 	var opts []resource.Option
-	if len(cfg.Res) > 0 {
-		// the options exactly as listed; the clock and the rng go where the list says, else in front
-		hasClk, hasRng := false, false
-		for _, t := range cfg.Res {
-			hasClk, hasRng = hasClk || t == "clk", hasRng || t == "rng"
-		}
-		if !hasClk {
-			opts = append(opts, resource.WithClock(r.clk))
-		}
-		if !hasRng {
-			opts = append(opts, resource.WithRNG(&scriptRNG{b: rng}))
-		}
-		if p, msg := lib.Catch(func() {
+	if p, msg := lib.Catch(func() {
+		if len(cfg.Res) > 0 {
+			// the options exactly as listed; the clock and the rng go where the list says, else in front
+			hasClk, hasRng := false, false
+			for _, t := range cfg.Res {
+				hasClk, hasRng = hasClk || t == "clk", hasRng || t == "rng"
+			}
+			if !hasClk {
+				opts = append(opts, resource.WithClock(r.clk))
+			}
+			if !hasRng {
+				opts = append(opts, resource.WithRNG(&scriptRNG{b: rng}))
+			}
 			for _, t := range cfg.Res {
 				opts = append(opts, r.resOption(t, rng))
 			}
+		} else {
+			opts = append(opts, resource.WithClock(r.clk), resource.WithRNG(&scriptRNG{b: rng}))
+			if cfg.W != nil {
+				opts = append(opts, resource.WithWritableFields(parseMask(*cfg.W)))
+			}
+			if cfg.Icpt != "" {
+				opts = append(opts, resource.WithIDInterceptor(namedIcpt(cfg.Icpt)))
+			}
+			if cfg.Eqv != "" {
+				opts = append(opts, r.eqvOption(cfg.Eqv))
+			}
 			if cfg.Kind == "val" {
-				r.val = resource.NewValue(opts...)
+				if len(cfg.Init) > 0 && cfg.Init[0] != "nil" {
+					opts = append(opts, resource.WithInitialValue(parseMsg(cfg.Init[0])))
+				}
 			} else {
-				r.coll = resource.NewCollection(opts...)
+				for _, rec := range cfg.Init {
+					p := strings.SplitN(rec, "~", 2)
+					opts = append(opts, resource.WithInitialRecord(p[0], parseMsg(p[1])))
+				}
 			}
-		}); p {
-			r.panicked = msg
-			if r.panicked == "" {
-				r.panicked = "panic"
-			}
-			return r
-		}
-	} else {
-		opts = append(opts, resource.WithClock(r.clk), resource.WithRNG(&scriptRNG{b: rng}))
-		if cfg.W != nil {
-			opts = append(opts, resource.WithWritableFields(parseMask(*cfg.W)))
-		}
-		if cfg.Icpt != "" {
-			opts = append(opts, resource.WithIDInterceptor(namedIcpt(cfg.Icpt)))
-		}
-		if cfg.Eqv != "" {
-			opts = append(opts, r.eqvOption(cfg.Eqv))
 		}
 		if cfg.Kind == "val" {
-			if len(cfg.Init) > 0 && cfg.Init[0] != "nil" {
-				opts = append(opts, resource.WithInitialValue(parseMsg(cfg.Init[0])))
-			}
 			r.val = resource.NewValue(opts...)
 		} else {
-			seen := map[string]bool{}
-			for _, rec := range cfg.Init {
-				p := strings.SplitN(rec, "~", 2)
-				if seen[p[0]] {
-					continue // WithInitialRecord panics on a duplicate id; the model keeps the last one, scripts avoid it
-				}
-				seen[p[0]] = true
-				opts = append(opts, resource.WithInitialRecord(p[0], parseMsg(p[1])))
-			}
 			r.coll = resource.NewCollection(opts...)
 		}
+	}); p {
+		// WithInitialRecord panics on an id given twice, NewCollection on two ids the interceptor maps to one
+		r.panicked = msg
+		if r.panicked == "" {
+			r.panicked = "panic"
+		}
+		return r
 	}
 	// construction read the (frozen) clock at tick 0; the model starts its counter at `tick`
 	r.clk.frozen = false
